@@ -85,6 +85,8 @@ func runC05(p *Program, r *Report) {
 	cSpawns(p, r, "C05.spawn")
 	cClosers(p, r, "C05.closers")
 	c10closes(p, r, "C05.ctxclose")
+	// a read that races with a context expiry fails: the watcher keeps one context per direction (seed C05-N)
+	c10loop(p, r, "C05.watcher")
 	// summaries into the evidence
 	sum := map[string]string{}
 	for _, fn := range p.Funcs {
